@@ -32,9 +32,12 @@ impl Vm {
   ) -> ExecutionSignal { unsafe {
     let error_message = val!(self.manage_str(message));
     // Make sure we have enough space for the error class and message
-    // As this isn't accounted for during compilation
+    // As this isn't accounted for during compilation. Growing the stack
+    // allocates, the message is not reachable from anywhere yet
+    self.push_root(error_message);
     let mut fiber = self.fiber;
     fiber.ensure_stack(self, 2);
+    self.pop_roots(1);
     fiber.push(val!(error));
     fiber.push(error_message);
 
